@@ -489,7 +489,8 @@ def isFieldTy : Ty → Bool
 
 mutual
 /-- the types that can be written in Rust: tuple arity 2..12, polynomials over `BFieldElement`/`XFieldElement`,
-    at least one enum variant. The theorems do not need it (they hold for the whole universe). -/
+    at least one and fewer than `2^32` enum variants. Only `encode_canonical` needs it (for the discriminant); all
+    other theorems hold for the whole universe. -/
 def wf : Ty → Bool
   | .box t => wf t
   | .option t => wf t
@@ -498,7 +499,7 @@ def wf : Ty → Bool
   | .tuple ts => 2 ≤ ts.length && ts.length ≤ 12 && wfs ts
   | .poly t => isFieldTy t
   | .struct fs => wfs fs
-  | .enum vars => !vars.isEmpty && wfss vars
+  | .enum vars => !vars.isEmpty && vars.length < 2^32 && wfss vars
   | _ => true
 def wfs : List Ty → Bool
   | [] => true
